@@ -11,7 +11,7 @@ import json
 from lib import common, formats, stdresp
 from lib.common import Driver, hx
 
-TARGETS = ["ScsiVerif.Props.C04", "ScsiVerif.Props.C04b", "ScsiVerif.Props.C04c", "ScsiVerif.Props.C04d", "ScsiVerif.Props.C04e", "ScsiVerif.Props.C04f", "ScsiVerif.Props.C04g", "ScsiVerif.Props.C04h"]
+TARGETS = ["ScsiVerif.Props.C04", "ScsiVerif.Props.C04b", "ScsiVerif.Props.C04c", "ScsiVerif.Props.C04d", "ScsiVerif.Props.C04e", "ScsiVerif.Props.C04f", "ScsiVerif.Props.C04g", "ScsiVerif.Props.C04h", "ScsiVerif.Props.C04i"]
 NEEDS_GEN = True
 
 # format name -> (decoder name in lib/formats.decoders, generator method, kwargs)
